@@ -10,9 +10,9 @@ import (
 func init() {
 	Register(&PropDef{
 		ID: "C16", QuickRuns: 2400, Level: "exploration",
-		Rule: "one run = a UP4 request history (establishments with application filters, FAR / QER / PDR modifications, deletions, slice REST requests; dropping uplink FARs; kill -9 and restart against the populated switch, whose start-up read-and-clear writes are validated like the rest) with boundary inputs: precedence 0, 1, 65533..65535 and drawn, QFIs 0..63, slice id 0..15, traffic classes 0..3, 40-bit rates, port ranges, prefix lengths 8..32; every update of every Write the simulated switch receives is validated against the P4Info it serves (table exists, field belongs to it with the declared match kind, value fits the bit width, LPM prefix length, range low <= high, action allowed with exactly its parameters, non-zero priority iff the table has ternary/range fields, meter / counter index inside the array). Non-trivial = at least one accepted session operation; distinct = different event skeleton. The static sub-claim (constants regenerated twice and compared byte for byte with internal/p4constants) is checked by /verif/tools/c16static.sh, reported in the same evidence file. Also (one run in 40): 256-315 sessions in turn behind gNBs of their own.",
+		Rule:   "one run = a UP4 request history (establishments with application filters, FAR / QER / PDR modifications, deletions, slice REST requests; dropping uplink FARs; kill -9 and restart against the populated switch, whose start-up read-and-clear writes are validated like the rest) with boundary inputs: precedence 0, 1, 65533..65535 and drawn, QFIs 0..63, slice id 0..15, traffic classes 0..3, 40-bit rates, port ranges, prefix lengths 8..32; every update of every Write the simulated switch receives is validated against the P4Info it serves (table exists, field belongs to it with the declared match kind, value fits the bit width, LPM prefix length, range low <= high, action allowed with exactly its parameters, non-zero priority iff the table has ternary/range fields, meter / counter index inside the array). Non-trivial = at least one accepted session operation; distinct = different event skeleton. The static sub-claim (constants regenerated twice and compared byte for byte with internal/p4constants) is checked by /verif/tools/c16static.sh, reported in the same evidence file. Also (one run in 40): 256-315 sessions in turn behind gNBs of their own.",
 		Assume: []string{"P4Info semantics per P4Runtime v1.3 as implemented in sim/vsimenv/p4.go validateTableEntry/applyUpdate"},
-		Real: CommonReal, Simulated: append(append([]string{}, CommonSim...), "P4Runtime switch with P4Info validator"),
+		Real:   CommonReal, Simulated: append(append([]string{}, CommonSim...), "P4Runtime switch with P4Info validator"),
 		Scenario: scenarioC16,
 	})
 }
